@@ -33,10 +33,38 @@ def pytest_runtest_setup(item):
         ctx.cases += 1
 
 
+def run_readme_examples(ctx):
+    """every ```py block of the repository's README executed under the same monitors (output discarded)"""
+    import contextlib
+    import io
+    import re
+    from . import env
+    path = os.path.join(env.REPO, 'README.md')
+    if not os.path.exists(path):
+        return
+    blocks = re.findall(r'```py\n(.*?)```', open(path, encoding='utf-8').read(), re.S)
+    ran = failed = 0
+    for i, code in enumerate(blocks):
+        ctx.case = {'seed': ctx.seed, 'tier': 'thorough', 'shard': 'readme', 'case': i}
+        ctx.cases += 1
+        try:
+            with contextlib.redirect_stdout(io.StringIO()):
+                exec(compile(code, 'README.md:block%d' % i, 'exec'), {'__name__': '__readme__'})
+            ran += 1
+        except Exception:
+            failed += 1     # a block that is not self-contained; the monitors still saw what ran
+    ctx.extra['n_readme_blocks_run_under_monitors'] = ran
+    ctx.extra['n_readme_blocks_not_self_contained'] = failed
+
+
 def pytest_sessionfinish(session, exitstatus):
     ctx = _state.get('ctx')
     if ctx is None:
         return
+    try:
+        run_readme_examples(ctx)
+    except Exception:
+        ctx.oracle_error('readme examples')
     _state['mon'].active = False
     d = ctx.dump()
     d['wall_s'] = 0.0
